@@ -366,6 +366,139 @@ def rule_peer_controlled_panics(S, res):
         res.ok("R1.v", "engine", "", "%d panic sites in functions that handle message components: none is controlled by a condition on a component" % n)
 
 
+LEN_ADAPTERS = ("Filter<", "FilterMap<", "Flatten<", "FlatMap<", "TakeWhile<", "SkipWhile<", "MapWhile<")
+
+
+def rule_peer_sized_containers(S, res):
+    """R1.vi: a vector whose *length* is decided by message contents (collected through filter /
+    filter_map / flatten / take_while .. whose closure looks at a component, or pushed to under a
+    switch on a component) is never indexed - in any function it is passed to - unless a fail-closed
+    test of its length dominates the index."""
+    import r8
+    fg = S.fg
+    cl = mpc_closure(S)
+    all_comp = set()
+    for d in S.comp.values():
+        all_comp |= set(d.keys())
+    val = lambda e: e.kind in ("copy", "ref", "base2field", "field2whole", "upvar", "cast", "un", "bin", "discr", "agg", "closarg", "index") or (e.kind == "call" and secmod.struct_edge(e))
+    sources = []
+    n_adapt = 0
+    msg_types = [validated_types(s_)[1] or "" for s_ in S.recv_sites] + ["(bool, alloc::vec::Vec<polytune::mpc::data_types::Mac>, polytune::mpc::data_types::Label)"]
+    for bk in sorted(cl):
+        b = fg.bodies[bk]
+        cd = None
+        for bi, t in b.calls():
+            names = callee_names(t)
+            if not names or bi not in b.live_blocks() or not t["args"] or t["args"][0]["k"] == "const":
+                continue
+            tail = names[-1].rsplit("::", 1)[-1]
+            if tail in ("collect", "from_iter", "extend", "unzip"):
+                ity = t["args"][-1]["p"]["ty"] if t["args"][-1]["k"] != "const" else ""
+                if not any(a in ity for a in LEN_ADAPTERS):
+                    continue
+                n_adapt += 1
+                dep = False
+                for d in r8.closure_defs_in_type(ity):
+                    for ck in fg.by_id.get(d, []):
+                        back = fg.backward([(ck, 0, None), (ck, 0, "*")], node_ok=lambda x: x[0] != "F", edge_ok=val)
+                        if any(x in all_comp for x in back):
+                            dep = True
+                # flatten over a component of options: the element type itself is a component
+                it_back = fg.backward(fg.operand_nodes(bk, t["args"][-1]), node_ok=lambda x: x[0] == bk, edge_ok=secmod.struct_edge)
+                if any(a in ity for a in ("Flatten<", "FlatMap<")) and any(x in all_comp for x in it_back):
+                    dep = True
+                if dep:
+                    seed = fg.node_of_place(bk, t["d"]) if tail != "extend" else fg.operand_nodes(bk, t["args"][0])[0]
+                    sources.append((bk, bi, seed, "collected through %s" % [a.rstrip("<") for a in LEN_ADAPTERS if a in ity][0]))
+            elif tail in ("push", "insert", "push_back", "extend_from_slice") and (names[-1].startswith("alloc::vec::Vec") or names[-1].startswith("alloc::collections")):
+                if cd is None:
+                    cd = control_deps(b)
+                # switches deciding whether this push runs; not continued through abort checks (`?`,
+                # early Err returns) or await points, which decide whether the function goes on at all
+                def passable(sw):
+                    tt = b.blocks[sw]["t"]
+                    if tt["k"] != "switch" or tt["o"]["k"] == "const":
+                        return False
+                    tm = {x for x in [tb for _v, tb in tt["ts"]] + [tt["else"]] if b.blocks[x]["t"]["k"] != "unreachable"}
+                    if any(edge_fail_closed(b, sw, x)[0] for x in tm):
+                        return False
+                    if any(b.blocks[x]["t"]["k"] in ("yield", "return", "coroutine_drop") for x in tm):
+                        return False
+                    return True
+                ctrl = set()
+                frontier = {bi}
+                while frontier:
+                    nxt = set()
+                    for x in frontier:
+                        for (sw, _s) in cd.get(x, ()):
+                            if sw not in ctrl and passable(sw):
+                                ctrl.add(sw)
+                                nxt.add(sw)
+                    frontier = nxt
+                # only tests between the creation of the vector and the push decide its length
+                rl = root_local(b, t["args"][0])
+                up = fg.backward(fg.operand_nodes(bk, t["args"][0]), node_ok=lambda x: x[0] == bk, edge_ok=lambda e: e.kind in ("ref", "copy"))
+                roots = {x[1] for x in up} | {rl}
+                allocs = [ab for ab, at in b.calls() if at["d"]["l"] in roots and not at["d"]["pr"] and callee_names(at) and callee_names(at)[-1].rsplit("::", 1)[-1] in ("new", "with_capacity", "from_elem", "default")]
+                for sw in sorted(ctrl):
+                    if len(allocs) == 1 and not b.dominates(allocs[0], sw):
+                        continue
+                    tt = b.blocks[sw]["t"]
+                    back = fg.backward(fg.operand_nodes(bk, tt["o"]), node_ok=lambda x: x[0] == bk, edge_ok=lambda e: e.kind in ("copy", "ref", "base2field", "field2whole", "discr", "un", "bin", "cast"))
+                    if any(x in all_comp and any(norm_ty(S.node_ty(x)) in tt_ for tt_ in msg_types) for x in back):
+                        # the exit test of `for x in comp` (discriminant of next()) is bounded by the
+                        # component's own (validated or guarded, R1.i) length
+                        is_next = any(e.kind == "call" and (e.info or {}).get("names") and e.info["names"][-1].rsplit("::", 1)[-1] in ("next", "poll") for x in back for e in fg.inn.get(x, ()))
+                        if is_next:
+                            continue
+                        sources.append((bk, bi, fg.operand_nodes(bk, t["args"][0])[0], "pushed to under a test of a message component"))
+                        break
+    bad = 0
+    n_sinks = 0
+    for (bk, bi, seed, how) in sources:
+        b = fg.bodies[bk]
+        start = [seed]
+        if seed[2] is None:
+            start.append((seed[0], seed[1], "*"))
+        # the vector itself and the places it is moved / stored / passed to
+        root = fg.backward(start, node_ok=lambda x: x[0] == bk, edge_ok=lambda e: e.kind in ("ref",)) if how.startswith("pushed") else {}
+        # type-directed: the vector travels inside values whose type mentions its own type
+        vty = norm_ty(S.node_ty(seed))
+        carries = lambda x: x[0] != "F" and (lambda ty_: vty in ty_ or "{coroutine" in ty_ or "opaque<" in ty_)((S.node_ty(x) + " " + fg.bodies[x[0]].locals[x[1]]["ty"]).replace(", alloc::alloc::Global", ""))
+        fwd = fg.forward(list(start) + list(root), node_ok=carries, edge_ok=lambda e: secmod.struct_edge(e) or e.kind in ("alias", "mutarg", "mutarg2", "alias_fb"), local=True, deep=True)
+        by_body = defaultdict(set)
+        for x in fwd:
+            by_body[x[0]].add(x[1])
+        hit = None
+        for kk, ls in by_body.items():
+            bb = fg.bodies[kk]
+            guards = None
+            for bj, t2 in bb.calls():
+                nm = callee_names(t2)
+                tl = nm[-1].rsplit("::", 1)[-1] if nm else ""
+                if tl in INDEX_TAILS and t2["args"] and t2["args"][0]["k"] != "const" and root_local(bb, t2["args"][0]) in ls:
+                    aty = norm_ty(t2["args"][0]["p"]["ty"])
+                    if aty != vty:
+                        continue
+                    n_sinks += 1
+                    if guards is None:
+                        guards = length_guards(S, kk, bb)
+                    rl = root_local(bb, t2["args"][0])
+                    if any(gl == rl and any(bb.edge_dominates(s_, d_, bj) for (s_, d_) in good) for (gl, good, ex, c) in guards):
+                        continue
+                    hit = hit or (bb, bj, tl)
+        if hit:
+            bad += 1
+            hb, hj, tl = hit
+            res.bad("R1.vi", "%s|peer-sized|%s" % (b.owner.rsplit("::", 1)[-1], hb.owner.rsplit("::", 1)[-1]),
+                    "a vector %s (its length is decided by what the peers sent; built at %s) reaches `%s` without a fail-closed length test: a crafted message panics the party" % (how, where(b, bi), tl),
+                    where(hb, hj), key="R1.vi|%s|%s" % (b.owner.rsplit("::", 1)[-1], hb.owner.rsplit("::", 1)[-1]))
+    res.count("length_changing_collects", n_adapt)
+    res.count("peer_sized_containers", len(sources))
+    if not bad:
+        res.ok("R1.vi", "engine", "", "%d vectors whose length depends on message contents; none reaches an unguarded index (%d index sites on them)" % (len(sources), n_sinks))
+
+
 def _fsources(fg, bk, operand, fam):
     """Field-based sources (Context / Circuit fields) an integer operand is a plain copy of."""
     if operand["k"] == "const":
